@@ -66,6 +66,14 @@ def find_template(project: Project, name: str) -> Template:
     raise TemplateNotFound(name)
 
 
+def is_symlinked_dot_license(path: StrPath) -> bool:
+    """Whether *path* is a .license file that is a symbolic link. Such a link
+    may point anywhere, also out of the project, so it is not written to.
+    """
+    path = Path(path)
+    return path.suffix == ".license" and path.is_symlink()
+
+
 def add_header_to_file(
     path: StrPath,
     reuse_info: ReuseInfo,
@@ -103,9 +111,19 @@ def add_header_to_file(
             )
             out.write("\n")
             path = _determine_license_suffix_path(path)
-            created_dot_license = not path.exists()
-            path.touch()
+            if not is_symlinked_dot_license(path):
+                created_dot_license = not path.exists()
+                path.touch()
             comment_style = EmptyCommentStyle
+
+    if is_symlinked_dot_license(path):
+        out.write(
+            _(
+                "Error: '{path}' is a symbolic link; did not add a header"
+            ).format(path=path)
+        )
+        out.write("\n")
+        return 1
 
     try:
         with open(path, "r", encoding="utf-8", newline="") as fp:
